@@ -35,7 +35,7 @@ META = {
                         'sides:3': 10, 'sides:4': 50, 'sides:5': 50, 'sides:6': 50, 'sides:7': 50, 'sides:8': 50,
                         'hole-no-triangles': 50, 'dataset-with-holes': 10, 'cell:concave-in-generated-mesh': 5,
                         'dataset:cf1d': 5, 'dataset:cf2d': 5, 'dataset:shoc_simple': 5, 'dataset:shoc_standard': 5,
-                        'dataset:ugrid': 5}},
+                        'dataset:ugrid': 5, 'mesh:tiny-cells-far-from-origin': 5, 'mesh:duplicate-node-coordinates': 3}},
     'must_reach': ANCHORS,
     'assumptions': ['GEOS covers / difference (shapely) decide "triangle lies inside the cell" (area outside <= 1e-12 x cell area)',
                     'fractions.Fraction(float) is exact: areas, orientation and the separating-axis overlap test use exact '
@@ -69,6 +69,18 @@ def dataset_case(obs, rng, conv, spec):
         kw['holes'] = pick(rng, ['scatter', 'line', 'block', 'mixed'])
     if conv == 'ugrid':
         kw['maxn'] = int(pick(rng, [3, 4, 5]))
+        if chance(rng, 0.3):
+            # a "stitched" mesh: every face owns its nodes, so several node indexes carry identical coordinates
+            from ..model.ugrid import Mesh, random_mesh
+            base, winding = random_mesh(rng, maxn=kw['maxn'])
+            faces, xs, ys = [], [], []
+            for f in base.faces:
+                faces.append(list(range(len(xs), len(xs) + len(f))))
+                xs.extend(float(base.x[n]) for n in f)
+                ys.extend(float(base.y[n]) for n in f)
+            kw.update(mesh=Mesh(faces, xs, ys), winding=winding)
+            kw.pop('maxn')
+            obs.cls('mesh:duplicate-node-coordinates')
     model = make(rng, conv, **kw)
     ds = model.encode()
     spec['model'] = model.describe()
@@ -85,8 +97,11 @@ def dataset_case(obs, rng, conv, spec):
 
 def faces_case(obs, rng, spec):
     rotate = chance(rng, 0.15)
+    tiny = (not rotate) and chance(rng, 0.2)
     nfaces = int(rng.integers(8, 25))
-    mesh, winding, info = ff.free_face_mesh(rng, nfaces, rotate=rotate)
+    mesh, winding, info = ff.free_face_mesh(rng, nfaces, rotate=rotate, tiny=tiny)
+    if tiny:
+        obs.cls('mesh:tiny-cells-far-from-origin')
     model = make_ugrid(rng, mesh=mesh, winding=winding)
     ds = model.encode()
     spec.update({'winding': winding, 'rotate': rotate, 'faces': mesh.nface, 'discarded-invalid-draws': mesh.discarded,
